@@ -238,15 +238,21 @@ func (f *filler) fill(v reflect.Value, nonzero bool, depth int) {
 		v.SetString(verifrt.String(f.nextLen(5, nonzero)))
 	case reflect.Slice:
 		if t == tBytes {
-			n := f.nextLen(5, nonzero)
+			// a conditional byte string / vector that must be present may also be present and EMPTY: a non-nil
+			// slice of length 0 is a non-zero Go value, so its group counts as present and an empty string /
+			// a vector with count 0 goes on the wire
+			n := f.nextLen(5, false)
 			b := verifrt.Bytes(n)
-			if n == 0 && !nonzero {
+			if n == 0 {
 				b = nil
+				if nonzero {
+					b = []byte{}
+				}
 			}
 			v.SetBytes(b)
 			return
 		}
-		n := f.nextLen(4, nonzero) // vectors of 0..3 elements
+		n := f.nextLen(4, false) // vectors of 0..3 elements
 		if depth < -1 && !nonzero {
 			n = 0 // recursion cut-off (recursive schema types)
 		}
